@@ -184,8 +184,8 @@ theorem pcall_step (G : GCtx) (hG : G.OK) (n : Nat) (hPSs : ∀ m, m + 1 = n →
   | zero => rw [evalBlock]; trivial
   | succ m =>
   rw [evalBlock_tail]
-  generalize hspec1 : ({ st with scopes := [((fd.params.map (fun x : Param => x.name)).zip vals).reverse],
-    module := G.mod, depth := st.depth + 1 } : St) = spec1
+  generalize hbinds : ((fd.params.map (fun x : Param => x.name)).zip vals).reverse = binds
+  generalize hspec1 : ({ st with scopes := [binds], module := G.mod, depth := st.depth + 1 } : St) = spec1
   -- the pieces of the code
   obtain ⟨P, hP⟩ : ∃ P, P = fnParts G.mod I.φ fd stmts (some e) I.scopes0 I.vm0 I.lm0 := ⟨_, rfl⟩
   obtain ⟨env0, henv0⟩ : ∃ env0 : CEnv, env0 = ⟨[] :: I.scopes0, I.vm0, I.lm0, 0⟩ := ⟨_, rfl⟩
@@ -207,6 +207,136 @@ theorem pcall_step (G : GCtx) (hG : G.OK) (n : Nat) (hPSs : ∀ m, m + 1 = n →
   have hvars := hFn.vars
   rw [← hP] at hslot hframe hwsS hwsE
   rw [hcode] at hplaced hvars
-  sorry
+  have hnvE : P.envE.nv = P.envS.nv := by rw [hP]; rfl
+  -- arithmetic of the frame
+  have hdep : st.depth ≤ G.cfg.callLimit := Nat.le_of_not_gt hd
+  have hmul : (st.depth : Int) * (G.F : Int) ≤ (G.cfg.callLimit : Int) * (G.F : Int) := by
+    exact_mod_cast Nat.mul_le_mul_right G.F hdep
+  have hroom := hG.room
+  rw [Int.add_mul] at hroom
+  have hFle : (P.envE.nv : Int) ≤ (G.F : Int) := by exact_mod_cast hframe
+  have hdepth := hsp.depth
+  have hhi : mp + (P.envE.nv : Int) < (G.lim.memory : Int) := by omega
+  -- the activation
+  obtain ⟨A, hAdef⟩ : ∃ A : Act, A = Act.mk (mangleFnName G.mod fd.name) fd.name P.cleanup frames
+    (mp + (P.envE.nv : Int)) I.c I.σ I.lab I.N I.T P.envE.nv I.φ := ⟨_, rfl⟩
+  have hA : A.OK G := by
+    rw [hAdef]
+    exact ⟨hFn.code, hFn.inj, hslot, by show 0 ≤ mp + (P.envE.nv : Int) - (P.envE.nv : Int); omega, hhi, hFn.phi,
+      hFn.key, hG.println⟩
+  -- the placement of the pieces
+  obtain ⟨hpl1234, hpl5⟩ := hplaced.append
+  obtain ⟨hpl123, hpl4⟩ := hpl1234.append
+  obtain ⟨hpl12, hpl3⟩ := hpl123.append
+  obtain ⟨hpl1, hpl2⟩ := hpl12.append
+  obtain ⟨hi0, _⟩ := hpl1.instr (i := .addMp (P.envE.nv : Int)) rfl
+  obtain ⟨hlabC, hpl5'⟩ := hpl5.label
+  obtain ⟨hiC, hpl5''⟩ := hpl5'.instr (i := .addMp (-(P.envE.nv : Int))) rfl
+  obtain ⟨hiR, _⟩ := hpl5''.instr (i := .ret) rfl
+  simp only [nI_append, nI_instr _ _ _ (rfl : isLabel (Instr.addMp (P.envE.nv : Int) : SInstr) = false), nI_nil,
+    Nat.zero_add] at hpl2 hpl3 hpl4 hlabC hiC hiR
+  have hAfn : A.fn = mangleFnName G.mod fd.name := by rw [hAdef]
+  have hAsrc : A.src = fd.name := by rw [hAdef]
+  have hAcl : A.cl = P.cleanup := by rw [hAdef]
+  have hArest : A.rest = frames := by rw [hAdef]
+  have hAmp : A.mp = mp + (P.envE.nv : Int) := by rw [hAdef]
+  have hAc : A.c = I.c := by rw [hAdef]
+  have hAσ : A.σ = I.σ := by rw [hAdef]
+  have hAlab : A.lab = I.lab := by rw [hAdef]
+  have hAN : A.N = I.N := by rw [hAdef]
+  have hAT : A.T = I.T := by rw [hAdef]
+  have hAnv : A.nv = P.envE.nv := by rw [hAdef]
+  have hAφ : A.φ = I.φ := by rw [hAdef]
+  -- parameters
+  have hall : ∀ sc ∈ ([] :: I.scopes0 : CScopes), ∀ x ∈ I.T, sc.lookup x = none := by
+    intro sc hsc x hx
+    rcases List.mem_cons.mp hsc with rfl | hsc
+    · rfl
+    · exact hFn.outer sc hsc x hx
+  have hrel0 : StRel G.mod A.T A.N A.σ G.lim A.mp env0.scopes env0.vm [[]] mem := by
+    rw [hAT, henv0]
+    have hlive := liveNames_of_unbound I.T ([] :: I.scopes0) hall
+    refine ⟨⟨fun x hx => trivial, scopesRel_outer I.T _ G.lim _ mem I.scopes0 hFn.outer⟩,
+      by rw [hlive]; exact List.nodup_nil, by rw [hlive]; simp, ?_⟩
+    intro sc hsc p hp hpT
+    have := List.lookup_eq_none_iff.mp (hall sc hsc p.1 hpT) p hp
+    simp at this
+  simp only [codeVars_append, List.mem_append] at hvars
+  obtain ⟨mem1, hrunP, hmlP, hrelP⟩ := params_run G A hA fd.sp st.out fd.params vals env0 [[]] mem 1 stk hFn.params
+    hlen (by rw [hAT]; exact hFn.tParams)
+    (by rw [hAN, ← hpc]; exact fun m hm => hvars m (Or.inl (Or.inl (Or.inl (Or.inr hm)))))
+    (by rw [hAlab, hAσ, hAc, ← hpc]; exact hpl2) hrel0
+  rw [declAll_single, List.append_nil, hbinds] at hrelP
+  rw [← hpc] at hrunP
+  obtain ⟨c', hc'⟩ := cgParams_scopes G.mod fd.sp fd.params env0 [] I.scopes0 (by rw [henv0])
+  have henvBsc : P.envB.scopes = ((cleanupKey G.mod fd.name, P.cleanup) :: c') :: I.scopes0 := by
+    rw [henvB, hcl]; simp only [bodyEnv, hc']
+  have henvBvm : P.envB.vm = (cgParams G.mod fd.sp fd.params env0).2.vm := by rw [henvB]; rfl
+  have hgrel : GRel G A P.envB.scopes P.envB.vm [binds] mem1 := by
+    refine ⟨?_, ?_⟩
+    · rw [henvBsc, henvBvm]
+      rw [hc'] at hrelP
+      exact hrelP.addKey _ _ (by rw [hAT]; exact hFn.key)
+    · rw [henvBsc, hAsrc, hAcl]
+      simp [ρS]
+  have hsp1 : SpecOK G A.mp spec1 := by
+    rw [← hspec1, hAmp]
+    refine ⟨hsp.heap, rfl, hsp.globals, ?_⟩
+    show mp + (P.envE.nv : Int) ≤ G.B + ((st.depth + 1 : Nat) : Int) * (G.F : Int)
+    push_cast
+    rw [Int.add_mul]
+    omega
+  have hS := hPSs m rfl A hA [] (P.envB.scopes.drop 1) 1 stmts P.envB spec1 (1 + nI P.pcode) stk mem1 hFn.okS
+    (by rw [hAT]; exact hFn.tIdents) (by rw [hAsrc, hAφ]; exact hwsS)
+    (by rw [hAsrc, hAφ, hAN, ← hsc]; exact fun m hm => hvars m (Or.inl (Or.inl (Or.inr hm))))
+    (by rw [hAsrc, hAφ, hAlab, hAσ, hAc, ← hsc]; exact hpl3) (Nat.le_refl 1) rfl
+    (by rw [← hspec1]; exact hgrel) hsp1
+  rw [hAsrc, hAφ, ← hsc, ← henvS] at hS
+  generalize hrS : evalStmts G.cfg m stmts spec1 = rS at hS ⊢
+  obtain ⟨r1, st1⟩ := rS
+  have hmono : mp ≤ A.mp - (A.nv : Int) := by rw [hAmp, hAnv]; omega
+  have hmono' : mp ≤ A.mp := by rw [hAmp]; omega
+  rw [hAfn, hArest, hAmp] at hrunP
+  cases r1 with
+  | ok u =>
+    simp only []
+    obtain ⟨hst1, mem2, hrunS, hmlS, hrel2⟩ := hS
+    have hsp2 : SpecOK G A.mp st1 := hsp1.scopes_out st1 hst1
+    have hE := hPE m rfl A hA e st1 (1 + nI P.pcode + nI P.scode) stk mem2 P.envS.lm P.envS.scopes P.envS.vm hFn.okE
+      (by rw [hAφ]; exact hwsE) (by rw [hAT]; exact hFn.tVars)
+      (by rw [hAφ, hAlab, hAσ, hAc, ← hec]; exact hpl4) hrel2.rel hsp2
+    rw [hAφ, ← hec] at hE
+    rw [hAfn, hArest, hAmp] at hrunS
+    have hout1 : spec1.out = st.out := by rw [← hspec1]
+    rw [hout1] at hrunS
+    generalize hrE : evalExpr G.cfg m e st1 = rE at hE ⊢
+    obtain ⟨r2, st2⟩ := rE
+    cases r2 with
+    | ok v =>
+      simp only []
+      obtain ⟨hst2, mem3, hrunE, hmlE⟩ := hE
+      rw [hAfn, hArest, hAmp] at hrunE
+      refine ⟨?_, mem3, RunsCall.intro hFn.code hi0 hhi ((hrunP.trans hrunS).trans hrunE) hiC hiR,
+        ((hmlP.mono hmono).trans (hmlS.mono hmono)).trans (hmlE.mono hmono')⟩
+      rw [hst2, hst1, ← hspec1]
+    | error c =>
+      cases c <;> simp only [] <;> first | trivial | exact False.elim hE | skip
+      intro hk
+      have hE' := hE hk
+      rw [hAfn, hArest, hAmp] at hE'
+      exact RunsCallF.intro hFn.code hi0 hhi ((hrunP.trans hrunS).fatal hE')
+  | error c =>
+    have hout1 : spec1.out = st.out := by rw [← hspec1]
+    cases c <;> simp only [] <;> first | trivial | exact False.elim hS | skip
+    · -- return
+      obtain ⟨hst1, mem2, hrunS, hmlS⟩ := hS
+      rw [hAfn, hArest, hAmp, hAlab, hAcl, hlabC, hout1] at hrunS
+      refine ⟨?_, mem2, RunsCall.intro hFn.code hi0 hhi (hrunP.trans hrunS) hiC hiR,
+        (hmlP.mono hmono).trans (hmlS.mono hmono)⟩
+      rw [hst1, ← hspec1]
+    · intro hk
+      have hS' := hS hk
+      rw [hAfn, hArest, hAmp, hout1] at hS'
+      exact RunsCallF.intro hFn.code hi0 hhi (hrunP.fatal hS')
 
 end HmsProofs.Sim
